@@ -509,3 +509,94 @@ pub fn c01_roundtrip(ctx: &Ctx, out: &mut RunOut) -> Result<(), Violation> {
     out.sample = format!("{} objects, {} cycles, first xref {}", m.objects.len(), cycles, if m.xref_stream { "stream" } else { "table" });
     Ok(())
 }
+
+/// C03: every kind of image lopdf can persist — fresh save, save after a failed
+/// save, reload + resave, xref format flipped, one and two incremental appends —
+/// must be valid for the strict reader and give back exactly the saved objects.
+pub fn c03_images(ctx: &Ctx, out: &mut RunOut) -> Result<(), Violation> {
+    let (m, _cfg) = gen::gen_doc(ctx);
+    let mut d = sim::to_doc(&m);
+    let mut h = 0u64;
+    let save = |d: &mut lopdf::Document, what: &str| -> Result<Vec<u8>, Violation> {
+        let mut sink = SimSink::new(ctx, draw_benign_sink(ctx));
+        guarded("save_to", || d.save_to(&mut sink))?.map_err(|e| Violation::new("healthy-save-failed", format!("{what}: {e}")))?;
+        Ok(sink.accepted)
+    };
+    // 1. fresh save
+    let img1 = save(&mut d, "fresh save")?;
+    crate::c03::check_image(ctx, &img1, &m, None)?;
+    h = simcore::mix(h, simcore::fnv(&img1));
+    // 2. failed save, then the same document again
+    if ctx.chance(F, 1, 2, "c03-failed-save") && !img1.is_empty() {
+        let off = ctx.draw(F, img1.len() as u64, "fault-offset") as usize;
+        let mut cfg = draw_benign_sink(ctx);
+        cfg.fault_at = Some((off, FaultKind::Hard(std::io::ErrorKind::Other)));
+        let mut sink = SimSink::new(ctx, cfg);
+        let r = guarded("save_to(failing sink)", || d.save_to(&mut sink))?;
+        if r.is_ok() {
+            return Err(Violation::new("ok-after-hard-fault", format!("save_to returned Ok after a sink fault at byte {off}")));
+        }
+        ctx.count("image-after-failed-save");
+        let img = save(&mut d, "save after failed save")?;
+        crate::c03::check_image(ctx, &img, &m, None)?;
+        h = simcore::mix(h, simcore::fnv(&img));
+    }
+    // 3. reload + resave, possibly in the other format
+    if ctx.chance(W, 1, 2, "c03-resave") {
+        let mut d2 = guarded("load_mem", || sim::load_mem(&img1))?.map_err(|e| Violation::new("load-failed", format!("reload: {e}")))?;
+        let mut m2 = m.clone();
+        if ctx.chance(W, 1, 2, "flip-xref") {
+            m2.xref_stream = !m2.xref_stream;
+            d2.reference_table.cross_reference_type =
+                if m2.xref_stream { lopdf::xref::XrefType::CrossReferenceStream } else { lopdf::xref::XrefType::CrossReferenceTable };
+        }
+        ctx.count("image-after-reload");
+        let img = save(&mut d2, "resave of a loaded document")?;
+        crate::c03::check_image(ctx, &img, &m2, None)?;
+        h = simcore::mix(h, simcore::fnv(&img));
+    }
+    // 4. incremental appends
+    let n_inc = ctx.draw(W, 3, "c03-incremental") as usize;
+    let mut prev = img1;
+    let mut model = m.clone();
+    let mut g = gen::Gen::new(ctx, gen::draw_cfg(ctx));
+    g.ids = m.objects.keys().cloned().collect();
+    if g.ids.is_empty() {
+        g.ids.push((1, 0));
+    }
+    g.cfg.max_depth = g.cfg.max_depth.min(3);
+    for step in 0..n_inc {
+        let mut inc = guarded("IncrementalDocument::load_from", || lopdf::IncrementalDocument::load_from(&prev[..]))?
+            .map_err(|e| Violation::new("load-failed", format!("IncrementalDocument::load_from (step {step}): {e:?}")))?;
+        let ids: Vec<(u32, u16)> = model.objects.keys().cloned().collect();
+        for _ in 0..1 + ctx.draw(W, 3, "inc-edits") {
+            let mut o = g.gen_obj(0, true);
+            if matches!(o, MObj::Null) {
+                o = MObj::Bool(true);
+            }
+            if ctx.chance(W, 1, 2, "inc-replace") && !ids.is_empty() {
+                let id = ids[ctx.draw(W, ids.len() as u64, "inc-id") as usize];
+                inc.new_document.set_object(id, sim::to_obj(&o));
+                model.objects.insert(id, o);
+            } else {
+                let id = inc.new_document.add_object(sim::to_obj(&o));
+                if model.objects.contains_key(&id) {
+                    return Err(Violation::new("new-id-collides", format!("add_object on the new revision returned existing id {id:?}")));
+                }
+                model.objects.insert(id, o);
+            }
+        }
+        let mut sink = SimSink::new(ctx, draw_benign_sink(ctx));
+        guarded("IncrementalDocument::save_to", || inc.save_to(&mut sink))?
+            .map_err(|e| Violation::new("healthy-save-failed", format!("incremental save (step {step}): {e}")))?;
+        let img = sink.accepted;
+        ctx.count("image-incremental");
+        crate::c03::check_image(ctx, &img, &model, Some(&prev))?;
+        h = simcore::mix(h, simcore::fnv(&img));
+        prev = img;
+    }
+    out.case_hash = h;
+    out.nontrivial = !m.objects.is_empty();
+    out.sample = format!("{} objects, xref {}, {} incremental appends, final image {} bytes", m.objects.len(), if m.xref_stream { "stream" } else { "table" }, n_inc, prev.len());
+    Ok(())
+}
